@@ -633,8 +633,9 @@ func (x *Exec) noteRead(st *State, t *Term, typ types.Type) {
 		}
 	case *types.Pointer, *types.Map:
 		x.rangeFacts[t.id] = true
-		// reachable references are nil or allocated (Go memory safety), and never negative
-		x.assumeGlobal(st, x.c.Ge(t, x.c.Int(0)))
+		// references read from the heap are nil or allocated (Go memory safety), never negative
+		al := x.heapGet(st, "alloc", SArr(SInt, SBool))
+		x.assumeGlobal(st, x.c.And(x.c.Ge(t, x.c.Int(0)), x.c.Or(x.c.Eq(t, x.c.Int(0)), x.c.Select(al, embRoot(t)))))
 	}
 }
 
